@@ -545,6 +545,8 @@ var originCalls = map[string]bool{
 	fnCurrentUserID: true, fnCurrentUserIDP: true, fnLoadCurrentUserID: true,
 	"(*net/http.Request).FormValue": true, "(*net/http.Request).PostFormValue": true, "(*net/http.Request).Cookie": true, "(*net/http.Request).Referer": true, "(*net/http.Request).UserAgent": true,
 	"(net/http.Header).Get": true, "(net/url.Values).Get": true, "time.Now": true, fnLocalizef: true,
+	// the token exchange, whether called directly or through the package's seam variable
+	fnExchange: true,
 }
 
 // Slice is the slicer configured for this repository:
